@@ -1179,28 +1179,43 @@ Vector Solve_Linear_System(Matrix A, Vector b)
 
 Vector Find_Eigenvector_Rayleigh(Matrix& M, double& eigenvalue)
 {
-	Vector b(M.Rows(), 1.0);
-	b.Normalize();
 	Matrix M_shifted		 = M - (eigenvalue * Identity_Matrix(M.Rows()));
 	const int max_iterations = 100;
-	double epsilon			 = 1.0;
-	// Inverse iteration
-	for(int iteration = 0; iteration < max_iterations && epsilon > 1.0e-10; iteration++)
+	// The start vector (1,...,1) can happen to be an eigenvector of another eigenvalue. Inverse iteration reproduces such a vector whatever the shift is. The Rayleigh quotient then does not match the eigenvalue estimate, and the unit vectors are tried as start vectors instead.
+	for(unsigned int attempt = 0; attempt <= M.Rows(); attempt++)
 	{
-		Vector b_before = b;
-		LIBPHYSICA_VERIF_TICK("Eigenvector.iteration");
-		b				= Solve_Linear_System(M_shifted, b);
+		bool last_attempt = (attempt == M.Rows());
+		Vector b(M.Rows(), attempt == 0 ? 1.0 : 0.0);
+		if(attempt > 0)
+			b[attempt - 1] = 1.0;
 		b.Normalize();
-		// Convergence of the direction (the overall sign of b is arbitrary and may flip between iterations).
-		epsilon = std::min((b - b_before).Norm(), (b + b_before).Norm());
+		double epsilon = 1.0;
+		// Inverse iteration
+		for(int iteration = 0; iteration < max_iterations && epsilon > 1.0e-10; iteration++)
+		{
+			Vector b_before = b;
+			LIBPHYSICA_VERIF_TICK("Eigenvector.iteration");
+			b				= Solve_Linear_System(M_shifted, b);
+			b.Normalize();
+			// Convergence of the direction (the overall sign of b is arbitrary and may flip between iterations).
+			epsilon = std::min((b - b_before).Norm(), (b + b_before).Norm());
+		}
+		if(epsilon > 1.0e-10)
+		{
+			if(!last_attempt)
+				continue;
+			std::cerr << "Error in Find_Eigenvector_Rayleigh(): The inverse iteration did not converge in " << max_iterations << " steps." << std::endl;
+			std::exit(EXIT_FAILURE);
+		}
+		double rayleigh_quotient = b * (M * b);
+		if(last_attempt || fabs(rayleigh_quotient - eigenvalue) <= 1.0e-6 * M.Norm())
+		{
+			eigenvalue = rayleigh_quotient;
+			return b;
+		}
 	}
-	if(epsilon > 1.0e-10)
-	{
-		std::cerr << "Error in Find_Eigenvector_Rayleigh(): The inverse iteration did not converge in " << max_iterations << " steps." << std::endl;
-		std::exit(EXIT_FAILURE);
-	}
-	eigenvalue = b * (M * b);
-	return b;
+	std::cerr << "Error in Find_Eigenvector_Rayleigh(): No eigenvector found." << std::endl;
+	std::exit(EXIT_FAILURE);
 }
 
 std::pair<std::vector<double>, std::vector<Vector>> Eigensystem(Matrix& M)
